@@ -190,6 +190,11 @@ def _detect_sources(data, threshold, npixels, footprint, inverse_mask, *,
         is `False`, then a 2D `~numpy.ndarray` segmentation image is
         returned. If no sources are found then `None` is returned.
     """
+    if isinstance(threshold, float):
+        # a Python float is a "weak" scalar: compared with float32 data
+        # it would first be rounded to float32
+        threshold = np.float64(threshold)
+
     # ignore RuntimeWarning caused by > comparison when data contains NaNs
     with warnings.catch_warnings():
         warnings.simplefilter('ignore', category=RuntimeWarning)
